@@ -64,8 +64,10 @@ def c01(ctx):
     RA.rule_bind(ctx, lin)
     RA.rule_attr_type(ctx, lin)
     RA.rule_ceil(ctx)
-    ks = [k for k in RA.query_kernels(F) if k.name.endswith("linear")]
-    aks = [k for k in RA.add_kernels(F) if k.name.endswith("linear")]
+    lcls = ctx.model.cls("countmin", "CountMinLinear")
+    own = {c.callee.key for mname in ("query", "add") if mname in lcls.methods for c in F.calls_from(lcls.methods[mname]) if c.callee.is_kernel}
+    ks = [k for k in RA.query_kernels(F) if k.key in own]
+    aks = [k for k in RA.add_kernels(F) if k.key in own]
     if not ks or not aks:
         from .model import AnalysisError
         raise AnalysisError("linear query/add kernels not found through CountMinLinear.query/add")
